@@ -1307,7 +1307,7 @@ func codecNoLossyTransform(c *core.Ctx) {
 		"TrimFunc": true, "TrimPrefix": true, "TrimSuffix": true, "Replace": true, "ReplaceAll": true, "Map": true, "Fields": true, "Title": true, "ToLowerSpecial": true,
 		"Valid": true, "ValidString": true,
 	}
-	names := []string{"grpcPercentEncode", "grpcPercentEncodeSlow", "grpcPercentDecode", "grpcPercentDecodeSlow", "EncodeBinaryHeader", "DecodeBinaryHeader"}
+	names := []string{"grpcPercentEncode", "grpcPercentEncodeSlow", "grpcPercentDecode", "grpcPercentDecodeSlow", "EncodeBinaryHeader", "DecodeBinaryHeader", "Code.UnmarshalText", "Code.String", "Code.MarshalText"}
 	n := 0
 	for _, name := range names {
 		fd := fn(p, name)
@@ -1324,7 +1324,7 @@ func codecNoLossyTransform(c *core.Ctx) {
 			}
 			switch f.Pkg().Path() {
 			case "strings", "bytes", "unicode/utf8":
-				if lossy[f.Name()] {
+				if lossy[f.Name()] && !(strings.HasPrefix(name, "Code.") && f.Name() == "TrimPrefix") {
 					bad = append(bad, fmt.Sprintf("%s.%s at %s", f.Pkg().Name(), f.Name(), p.Pos(call.Pos())))
 				}
 			}
